@@ -19,7 +19,7 @@ for f in sorted(glob.glob(os.path.join(V, "seeded", "R*", "meta.json"))):
     m = json.load(open(f))
     regs.append("| %s | %s | %s | %s | %s |" % (m["id"], m["property"], m["what"], m["needs_to_manifest"], m["detected_by"]))
 if regs:
-    st += "\n\nRegression seeds (the code as it was before one of the fixes above, kept as a patch so that `tools/seedrun.sh` can show the check still sees it; not from sub-agents):\n\n| id | property | change | needs | detected by |\n|---|---|---|---|---|\n" + "\n".join(regs)
+    st += "\n\nRegression and validation seeds (the code as it was before one of the fixes above, or a hand-written change made to validate a new check; kept as patches so that `tools/seedrun.sh` can show the check still sees them; not from sub-agents):\n\n| id | property | change | needs | detected by |\n|---|---|---|---|---|\n" + "\n".join(regs)
 c06 = open(os.path.join(V, "tools", "design_c06.md")).read() if os.path.exists(os.path.join(V, "tools", "design_c06.md")) else "(see the C06 row above)"
 src = src.replace("NUMBERED_FIXES", fx).replace("SEED_TABLE", st).replace("C06_DETAIL", c06.strip())
 nst = sum(1 for f in glob.glob(os.path.join(V, "seeded", "S*", "meta.json")) if json.load(open(f)).get("strengthened"))
